@@ -1,6 +1,6 @@
 (* C15 - Melswap settles only genuine requests, at one fair price, pro rata.
-   Pinned statements only; proofs in STF/Proofs/SealCoins.v and STF/Proofs/Pool.v. *)
-From MelVerif Require Import STF.Model STF.Proofs.Pool STF.Proofs.SealCoins.
+   Pinned statements only; proofs in STF/Proofs/SealCoins.v, STF/Proofs/Pool.v and STF/Proofs/SealSupply.v. *)
+From MelVerif Require Import STF.Model STF.Proofs.Supply STF.Proofs.Pool STF.Proofs.SealCoins STF.Proofs.BatchSupply STF.Proofs.SealSupply STF.Proofs.PoolKeys STF.Proofs.SealLift STF.Proofs.Witness STF.Proofs.Witness2.
 Open Scope N_scope.
 
 (* only pool requests have outputs transformed at sealing: every coin that is not output 0 / 1 of a pool
@@ -80,3 +80,55 @@ Theorem C15_deposit : forall p dl dr,
               p_liqs := sat_add128 (p_liqs p) minted |}, minted)).
 Proof. exact pool_deposit_spec. Qed.
 Print Assumptions C15_deposit.
+
+(* "the reserves move by exactly the amounts taken from or paid into coins", at the level of the state: after
+   the swaps of a block against pool k, reserve + coins of either side is never more than before (what is paid
+   out is the constant-product amount split pro rata and rounded down, so it is short of the total paid by less
+   than one unit per request), no other denomination moves, and the issued liquidity is unchanged *)
+Theorem C15_swaps_settle_against_reserves : forall k, fst k <> snd k -> forall s swaps s',
+  swaps_single_pool k s swaps = Ok s' ->
+  NoDup (map key0 swaps) ->
+  (forall t, In t swaps -> declared0 s t /\ (cd_denom (out0 t) = fst k \/ cd_denom (out0 t) = snd k)) ->
+  nsum (map (fun t => cd_value (out0 t)) swaps) < U128 ->
+  exists p p', get_pool s k = Some p /\ s_pools s' = <[poolkey_code k := p']> (s_pools s) /\
+    p_liqs p' = p_liqs p /\
+    forall d, coin_supply d (s_coins s') + side d k p' <= coin_supply d (s_coins s) + side d k p.
+Proof. exact swaps_single_pool_conserves. Qed.
+Print Assumptions C15_swaps_settle_against_reserves.
+
+(* the hypotheses of the settlement theorems hold together on a concrete pool (STF/Proofs/Witness2.v) *)
+Example C15_swap_witness :
+  (exists s', swaps_single_pool w_key w_seal_state [w_swap] = Ok s') /\
+  NoDup (map key0 [w_swap]) /\
+  (forall t, In t [w_swap] -> declared0 w_seal_state t /\ (cd_denom (out0 t) = fst w_key \/ cd_denom (out0 t) = snd w_key)) /\
+  nsum (map (fun t => cd_value (out0 t)) [w_swap]) < U128.
+Proof. exact w_swap_ok. Qed.
+
+(* every pool named by the requests of a block is settled exactly once per phase: the list of pool names the
+   settlement loops iterate has no duplicates and contains exactly the named pools *)
+Theorem C15_each_pool_once : forall txs, NoDup (pool_keys_sorted txs).
+Proof. exact pool_keys_sorted_nodup. Qed.
+Print Assumptions C15_each_pool_once.
+Theorem C15_exactly_the_named_pools : forall txs k, In k (pool_keys_sorted txs) <-> exists t, In t txs /\ tx_pool t = Some k.
+Proof. exact pool_keys_sorted_in. Qed.
+Print Assumptions C15_exactly_the_named_pools.
+
+(* all requests of a block against all pools: reserves move by what is taken from / paid into coins *)
+Theorem C15_settlement : forall K, NoDup (map poolkey_code K) -> forall SO s1 s2 s3 s4,
+  process_swaps s1 = Ok s2 -> process_deposits SO s2 = Ok s3 -> process_withdrawals SO s3 = Ok s4 ->
+  legacy_net s1 && (s_height s1 <? 978392) = false ->
+  (forall t k, In t (sorted_txs s1) -> tx_pool t = Some k -> In k K /\ LDk SO k <> fst k /\ LDk SO k <> snd k) ->
+  NoDup (key_pairs (sorted_txs s1)) ->
+  (forall t c, In t (sorted_txs s1) -> s_coins s1 !! key0 t = Some c -> as_declared c (out0 t)) ->
+  (forall t c, In t (sorted_txs s1) -> s_coins s1 !! key1 t = Some c -> as_declared c (out1 t)) ->
+  nsum (map (fun t => cd_value (out0 t)) (sorted_txs s1)) < U128 ->
+  nsum (map (fun t => cd_value (out1 t)) (sorted_txs s1)) < U128 ->
+  (forall k p'' m, In k K ->
+     pool_deposit (pool_at s2 k)
+       (nsum (map (fun t => cd_value (out0 t)) (txs_for_pool (List.filter (is_deposit_request s2) (sorted_txs s2)) k)))
+       (nsum (map (fun t => cd_value (out1 t)) (txs_for_pool (List.filter (is_deposit_request s2) (sorted_txs s2)) k))) = Ok (p'', m) ->
+     p_liqs (pool_at s2 k) + m < U128) ->
+  (forall k p, In k K -> get_pool s3 k = Some p -> p_lefts p < U128 /\ p_rights p < U128) ->
+  forall d, settles K SO d s1 s4.
+Proof. exact settlement_settles. Qed.
+Print Assumptions C15_settlement.
